@@ -183,6 +183,21 @@ pub fn to_val(v: DataValue) -> Val {
         DataValue::Int64(i) => Val::Int(i),
         DataValue::Float64(f) => Val::F(f.0),
         DataValue::String(s) => Val::Str(s.to_string()),
+        DataValue::Date(d) => Val::Date(d.to_string()),
+        DataValue::Decimal(d) => {
+            // hundredths when exactly representable (scale normalised away)
+            let (m, sc) = (d.mantissa(), d.scale());
+            let h = if sc <= 2 {
+                m.checked_mul(10i128.pow(2 - sc))
+            } else {
+                let f = 10i128.pow(sc - 2);
+                (m % f == 0).then_some(m / f)
+            };
+            match h.and_then(|h| i64::try_from(h).ok()) {
+                Some(h) => Val::Dec(h),
+                None => Val::Other(d.to_string()),
+            }
+        }
         other => Val::Other(other.to_string()),
     }
 }
